@@ -89,6 +89,23 @@ def _bind(g: Func, call: ast.Call) -> dict[str, ast.expr]:
     return mapping
 
 
+def parg(repo, f: Func, call: ast.Call, i: int, callee: Func | None = None):
+    """The expression bound to the i-th parameter (self excluded) of the called function, whether it was written
+    positionally or by keyword.  Without a resolvable callee: the i-th positional argument, if any."""
+    if i < len(call.args) and not any(isinstance(a, ast.Starred) for a in call.args[: i + 1]):
+        return call.args[i]
+    g = callee or resolve_call(repo, f, call)
+    if g is None:
+        return None
+    a = g.node.args
+    params = [p.arg for p in a.posonlyargs + a.args]
+    if g.cls is not None and params and params[0] in ("self", "cls"):
+        params = params[1:]
+    if i >= len(params):
+        return None
+    return next((k.value for k in call.keywords if k.arg == params[i]), None)
+
+
 def flat_bodies(repo, f: Func, depth: int = MAX_DEPTH, only_module_local: bool = False) -> list[tuple[Func, ast.Call, list[ast.stmt], int]]:
     cache = getattr(repo, "_flat_cache", None)
     if cache is None:
